@@ -437,6 +437,24 @@ def showOutcome : Outcome → String
   | .crash => "crash"
   | .blocked => "blocked"
 
+/-- one message handed to an instance (`imsg`) -/
+def imsgStep (s : State) (id t : Nat) (src : Option Nat) (v : Nat) : State × String :=
+      match lookup s.insts id with
+      | none => (s, "bad-op")
+      | some x =>
+        if x.st.stuck.isSome then (s, "stuck") else   -- the reader is inside `Send`: the harness sends nothing
+        let r := istep x.st { ty := t, src := src, val := v }
+        match r.2 with
+        | some .crash => ({ s with insts := store s.insts id { x with st := r.1 } }, "crash")
+        | some .blocked => ({ s with insts := store s.insts id { x with st := r.1 } }, "blocked")
+        | o =>
+          let calls := match o with | some (.calls cs) => cs | _ => []
+          if x.autoDrain then
+            let d := drainAll r.1
+            ({ s with insts := store s.insts id { x with st := d.1 } }, showBatches (calls ++ d.2))
+          else
+            ({ s with insts := store s.insts id { x with st := r.1 } }, showBatches calls)
+
 /-- `cfg <root|inner> <nChildren> <aggregated types, comma separated>` and
 `msg <type> <p|child index> <value>`; the reply to `msg` is the dispatched batch or `-`.
 
@@ -491,23 +509,21 @@ def step (s : State) (toks : List String) : State × String :=
   | ["imsg", id, t, src, v] =>
     let src? : Option (Option Nat) := if src = "p" then some none else src.toNat?.map some
     match id.toNat?, t.toNat?, src?, v.toNat? with
-    | some id, some t, some src, some v =>
+    | some id, some t, some src, some v => imsgStep s id t src v
+    | _, _, _, _ => (s, "bad-op")
+  -- `irace <id> <type> <v0>`: every child's first message of that type, values v0, v0+1, …, handed over at the same
+  -- time to an instance that does not exist yet (`transmitMux` serialises them: one instance, created by the first)
+  | ["irace", id, t, v0] =>
+    match id.toNat?, t.toNat?, v0.toNat? with
+    | some id, some t, some v0 =>
       match lookup s.insts id with
       | none => (s, "bad-op")
       | some x =>
-        if x.st.stuck.isSome then (s, "stuck") else   -- the reader is inside `Send`: the harness sends nothing
-        let r := istep x.st { ty := t, src := src, val := v }
-        match r.2 with
-        | some .crash => ({ s with insts := store s.insts id { x with st := r.1 } }, "crash")
-        | some .blocked => ({ s with insts := store s.insts id { x with st := r.1 } }, "blocked")
-        | o =>
-          let calls := match o with | some (.calls cs) => cs | _ => []
-          if x.autoDrain then
-            let d := drainAll r.1
-            ({ s with insts := store s.insts id { x with st := d.1 } }, showBatches (calls ++ d.2))
-          else
-            ({ s with insts := store s.insts id { x with st := r.1 } }, showBatches calls)
-    | _, _, _, _ => (s, "bad-op")
+        let r := (List.range x.st.nChildren).foldl (fun (acc : State × List String) i =>
+          let o := imsgStep acc.1 id t (some i) (v0 + i)
+          (o.1, if o.2 = "-" then acc.2 else acc.2 ++ [o.2])) (s, [])
+        (r.1, if r.2.isEmpty then "-" else ";".intercalate r.2)
+    | _, _, _ => (s, "bad-op")
   | ["recv", id] =>
     match id.toNat? with
     | some id =>
